@@ -212,10 +212,10 @@ def run_check(prop, tier='quick', seed=0, jobs=None, only=None):
         for idx, res, secs in pool.imap_unordered(_run_task, [(i, tier, budget_ms) for i in idxs], chunksize=1):
             results.extend(res)
             task_secs[TASKS[idx].name] = round(secs, 2)
-    return finish(prop, tier, seed, results, task_secs, t_start)
+    return finish(prop, tier, seed, results, task_secs, t_start, partial=bool(only) or os.path.realpath(REPO) != '/repo')
 
 
-def finish(prop, tier, seed, results, task_secs, t_start):
+def finish(prop, tier, seed, results, task_secs, t_start, partial=False):
     known, fixed = load_known()
     os.makedirs(os.path.join(ROOT, 'replays'), exist_ok=True)
     os.makedirs(os.path.join(ROOT, 'evidence'), exist_ok=True)
@@ -333,7 +333,10 @@ def finish(prop, tier, seed, results, task_secs, t_start):
     ev = dict(property_id=prop, tier=tier, seed=int(seed), level=level, coverage=cov,
               assumptions=COMMON_ASSUMPTIONS + info.get('assumptions', []),
               wall_s=round(time.time() - t_start, 2), violations=len(violations))
-    json.dump(ev, open(os.path.join(ROOT, 'evidence', f'{prop}.json'), 'w'), indent=1, default=str)
+    # a filtered run (--only) or a run against a scratch copy of the repository is not evidence for the property
+    evdir = os.path.join(ROOT, 'evidence', '_partial') if partial else os.path.join(ROOT, 'evidence')
+    os.makedirs(evdir, exist_ok=True)
+    json.dump(ev, open(os.path.join(evdir, f'{prop}.json'), 'w'), indent=1, default=str)
     if os.environ.get('VERIF_DUMP'):
         json.dump(results, open(os.environ['VERIF_DUMP'], 'w'), indent=0, default=str)
     print(f'{prop} [{tier}]: obligations={n_obl} discharged={n_dis} bounded={len(bnd)} '
